@@ -117,9 +117,8 @@ def data(kind, which=0):
             return {"X": X, "y": y}
         labs = [(0, 1), (0, 1), (3, 7), (0, 1, 2), (0, 1)][which % 5]
         order = numpy.argsort(numpy.argsort(s + 0.01 * numpy.arange(n)))
-        y = numpy.array([labs[(r * len(labs)) // n] for r in order])
-        # make it non-separable by a single threshold
-        y[[1, n - 2]] = y[[n - 2, 1]]
+        # not linearly separable: blocks of 3 consecutive ranks of the row sum alternate between the classes
+        y = numpy.array([labs[(r // 3) % len(labs)] for r in order])
         return {"X": X, "y": y}
     if kind == "cat":
         import pandas
@@ -205,7 +204,8 @@ def catalogue():
     add("PiecewiseRegressor", "reg", {
         "A": lambda: M.PiecewiseRegressor("tree"),
         "B": lambda: M.PiecewiseRegressor(binner="bins", estimator=g["DummyRegressor"]()),
-        "C": lambda: M.PiecewiseRegressor(binner=DTR(max_depth=2), estimator=LinR(fit_intercept=False), n_jobs=2)})
+        "C": lambda: M.PiecewiseRegressor(binner=DTR(max_depth=2), estimator=LinR(fit_intercept=False), n_jobs=2),
+        "D": lambda: M.PiecewiseRegressor(binner="bins")})
     add("PiecewiseClassifier", "clf", {
         "A": lambda: M.PiecewiseClassifier(binner=DTC(min_samples_leaf=3), random_state=0),
         "B": lambda: M.PiecewiseClassifier(binner=DTC(max_depth=1), estimator=DTC(max_depth=2), random_state=1),
@@ -218,7 +218,8 @@ def catalogue():
         strs={"criterion": ["mselin", "simple"]})
     add("DecisionTreeLogisticRegression", "clf", {
         "A": lambda: M.DecisionTreeLogisticRegression(max_depth=3),
-        "B": lambda: M.DecisionTreeLogisticRegression(estimator=DTC(max_depth=1), fit_improve_algo="none", max_depth=2)},
+        "B": lambda: M.DecisionTreeLogisticRegression(estimator=DTC(max_depth=1), fit_improve_algo="none", max_depth=2),
+        "C": lambda: M.DecisionTreeLogisticRegression(max_depth=4, min_samples_leaf=1, fit_improve_algo="intercept_sort_always")},
         strs={"fit_improve_algo": ["auto", "none", "intercept_sort"], "strategy": ["parallel"]})
     add("IntervalRegressor", "reg", {
         "A": lambda: M.IntervalRegressor(LinR(), n_estimators=3),
